@@ -325,23 +325,53 @@ func runCacheConc(c CacheCase, a *run.Acc) {
 				f()
 			}
 		}()
+		open := func(name string, ex []uint32, filt bool) segment.VectorIndex {
+			vi, err := w.seg.(segment.VectorSegment).InterpretVectorIndex("v", filt, bitmapOf(ex))
+			if err != nil {
+				failf(fails, mu, "%s: InterpretVectorIndex: %v", name, err)
+				return nil
+			}
+			return vi
+		}
+		use := func(name string, step int, vi segment.VectorIndex, ex []uint32, filt bool) {
+			q := vecQuery{Field: "v", Q: cacheQuery, K: 2, Except: ex, ReqFilter: filt}
+			got, err := runSearch(vi, q)
+			if err != nil {
+				failf(fails, mu, "%s: %v", name, err)
+			} else if m := checkResult(w.exp, q, got, true); m != "" {
+				failf(fails, mu, "%s step %d: %s: %s", name, step, q, m)
+			}
+		}
+		// two rounds of open / search / close (the count drops to the other searcher's between them)
 		searcher := func(name string, ex []uint32, filt bool) func() {
 			return func() {
 				for round := 0; round < 2; round++ {
-					vi, err := w.seg.(segment.VectorSegment).InterpretVectorIndex("v", filt, bitmapOf(ex))
-					if err != nil {
-						failf(fails, mu, "%s: InterpretVectorIndex: %v", name, err)
+					vi := open(name, ex, filt)
+					if vi == nil {
 						return
 					}
-					q := vecQuery{Field: "v", Q: cacheQuery, K: 2, Except: ex, ReqFilter: filt}
-					got, err := runSearch(vi, q)
-					if err != nil {
-						failf(fails, mu, "%s: %v", name, err)
-					} else if m := checkResult(w.exp, q, got, true); m != "" {
-						failf(fails, mu, "%s round %d: %s: %s", name, round, q, m)
-					}
+					use(name, round, vi, ex, filt)
 					vi.Close()
 				}
+			}
+		}
+		// two OVERLAPPING handles: open, search, open a second one, close the first, search
+		// through the second, close it (the count reaches 3 with the other searcher's handle)
+		overlapper := func(name string, ex []uint32, filt bool) func() {
+			return func() {
+				h1 := open(name, ex, filt)
+				if h1 == nil {
+					return
+				}
+				use(name, 0, h1, ex, filt)
+				h2 := open(name, ex, filt)
+				if h2 == nil {
+					h1.Close()
+					return
+				}
+				h1.Close()
+				use(name, 1, h2, ex, filt)
+				h2.Close()
 			}
 		}
 		ticker := func() {
@@ -350,7 +380,16 @@ func runCacheConc(c CacheCase, a *run.Acc) {
 				yield("between ticks")
 			}
 		}
-		parallel(searcher("searcher A (no exclusion)", nil, false), searcher("searcher B (except {0}, filtering)", []uint32{0}, true), ticker)
+		parallel(searcher("searcher A (no exclusion)", nil, false), overlapper("searcher B (except {0}, filtering, overlapping handles)", []uint32{0}, true), ticker)
+		// epilogue, sequential: a handle obtained now must survive three idle expiry passes
+		// (a reference count left too low by the concurrent phase releases it under the holder)
+		if h := open("epilogue", nil, false); h != nil {
+			for i := 0; i < 3; i++ {
+				zap.VerifVecCacheCleanup(w.seg)
+			}
+			use("epilogue (after 3 expiry passes while the handle is held)", 0, h, nil, false)
+			h.Close()
+		}
 		if err := w.seg.Close(); err != nil {
 			failf(fails, mu, "segment Close: %v", err)
 		}
@@ -397,9 +436,9 @@ func init() {
 	run.Register(&run.Def{
 		ID:          "C16",
 		Level:       "model_checking",
-		Rule:        "(a) explicit-state breadth-first search over the REAL vector index cache (vectors tag, stand-in engine, controlled scheduler with spawned goroutines run at the spawn point, the monitor loop replaced by explicit tick events through the verif hook): one segment (3 documents, one with 3 vectors; in-memory and mmap-opened); events open(except in {nil,{0},{1}}, requiresFiltering in {false,true}) with <= 2 handles open, search(h), searchFiltered(h, eligible in {[1],[0,1,2]}), close(h), tick (one expiry pass), segclose (terminal, only without open handles); a successor is computed by replaying the whole history on a fresh segment plus one event; states are deduplicated by a canonical key (private cache state through the verif hook: per field reference count, hit-tracker average bits and sample, documents covered by the cached id->doc map, presence of the doc->ids map, index present; per handle its exclusion bitmap, filtering flag and whether it holds the currently cached index; engine live count). Invariants in every state: every search through a handle equals the reference for THAT handle's exclusion bitmap (exact top-k oracle); the native index of every open handle is alive; no double free / use after free in the engine; after segclose no native object is alive. (b) stateless model checking under the scheduler: searcher A (no exclusion) || searcher B (except {0}, filtering), two open/search/close rounds each, || 3 expiry ticks, then segment close; interleavings at RWMutex / spawn points with a preemption bound (2 quick / 3 thorough); plus a free-running -race pass with the real goroutines.",
+		Rule:        "(a) explicit-state breadth-first search over the REAL vector index cache (vectors tag, stand-in engine, controlled scheduler with spawned goroutines run at the spawn point, the monitor loop replaced by explicit tick events through the verif hook): one segment (3 documents, one with 3 vectors; in-memory and mmap-opened); events open(except in {nil,{0},{1}}, requiresFiltering in {false,true}) with <= 2 handles open, search(h), searchFiltered(h, eligible in {[1],[0,1,2]}), close(h), tick (one expiry pass), segclose (terminal, only without open handles); a successor is computed by replaying the whole history on a fresh segment plus one event; states are deduplicated by a canonical key (private cache state through the verif hook: per field reference count, hit-tracker average bits and sample, documents covered by the cached id->doc map, presence of the doc->ids map, index present; per handle its exclusion bitmap, filtering flag and whether it holds the currently cached index; engine live count). Invariants in every state: every search through a handle equals the reference for THAT handle's exclusion bitmap (exact top-k oracle); the native index of every open handle is alive; no double free / use after free in the engine; after segclose no native object is alive. (b) stateless model checking under the scheduler: searcher A (no exclusion; two open/search/close rounds) || searcher B (except {0}, filtering; two OVERLAPPING handles: open, search, open, close first, search, close) || 3 expiry ticks, then a sequential epilogue (open; 3 expiry passes while the handle is held; search; close), then segment close; interleavings at RWMutex / atomic / spawn points with a preemption bound of 3 (2 for the mmap-opened segment in quick); plus a free-running -race pass with the real goroutines.",
 		Assumptions: []string{"the vector engine is the pure-Go stand-in (DESIGN 3.4)", "a client closes a segment only when it holds no open vector index handle", "filtered search is only issued through handles opened with requiresFiltering"},
-		Bounds:      map[string]string{"quick": "BFS depth 5 (both segment kinds), concurrent harness bound 2", "thorough": "BFS depth 7, concurrent harness bound 3"},
+		Bounds:      map[string]string{"quick": "BFS depth 5 (both segment kinds), concurrent harness bound 3 (in-memory) / 2 (mmap-opened)", "thorough": "BFS depth 7, concurrent harness bound 3 for both"},
 		Flavours:    func(string) []string { return []string{"instvec", "racevec"} },
 		New:         func() interface{} { return &CacheCase{} },
 		Gen: func(tier string, emit func(interface{})) {
@@ -409,9 +448,9 @@ func init() {
 				return
 			}
 			depth := 5
-			b := 2
+			b := 3 // in-memory segment; the mmap-opened one (same cache code) gets b-1 in quick
 			if tier == "thorough" {
-				depth, b = 7, 3
+				depth = 7
 			}
 			n := len(cacheEvents())
 			for _, seg := range []string{"mem", "mmap"} {
@@ -422,8 +461,12 @@ func init() {
 						emit(CacheCase{Kind: "bfs", Seg: seg, Prefix: []int{e1, e2}, Depth: depth})
 					}
 				}
-				for s := 0; s < 16; s++ {
-					emit(CacheCase{Kind: "conc", Seg: seg, Bound: b, Shard: s, Of: 16})
+				bs := b
+				if tier == "quick" && seg == "mmap" {
+					bs = b - 1
+				}
+				for s := 0; s < 32; s++ {
+					emit(CacheCase{Kind: "conc", Seg: seg, Bound: bs, Shard: s, Of: 32})
 				}
 			}
 		},
